@@ -313,7 +313,7 @@ OPS = [
 
 FIVE_POINTS = [((0, 0, 1), (2, 0, 1), (0, 1, 1), (3, 2, 1), (-1, 3, 1)), ((1, 1, 1), (-2, 1, 1), (0, -1, 1), (3, 0, 1), (2, 4, 1)), ((0, 0, 1), (1, 0, 0), (0, 1, 1), (2, 3, 1), (-1, 2, 1))]
 TANGENT_CFG = [((1, 1, -4), (0, 0, 1), (2, 0, 1), (0, 1, 1), (1, -1, 1)), ((1, 0, -5), (0, 0, 1), (2, 1, 1), (1, 3, 1), (-1, 1, 1)), ((2, -1, 7), (1, 1, 1), (-2, 1, 1), (0, -1, 1), (3, 0, 1))]
-FOCI_CFG = [((-2, 0, 1), (2, 0, 1), (0, 3, 1)), ((0, 0, 1), (3, 1, 1), (1, 4, 1)), ((-1, -1, 1), (2, 0, 1), (3, 3, 1))]
+FOCI_CFG = [((-2, 0, 1), (2, 0, 1), (1, 3, 1)), ((0, 0, 1), (3, 1, 1), (1, 4, 1)), ((-1, -1, 1), (2, 0, 1), (3, 3, 1))]
 FRAMES2 = [((0, 0, 1), (1, 0, 1), (0, 1, 1), (1, 1, 1), (2, 1, 1), (-1, 3, 1), (0, -2, 1), (4, 4, 2)), ((1, 0, 1), (0, 2, 1), (-1, -1, 1), (2, 2, 1), (0, 0, 1), (2, 0, 1), (2, 2, 1), (0, 2, 1))]
 
 OPS += [
